@@ -13,6 +13,7 @@ from .lie_common import lib_call
 PI = np.pi
 SHARDS = {"quick": 16, "thorough": 16}
 TIMEOUT = {"quick": 1500, "thorough": 8 * 3600}
+REQUIRED_REACH = ['launch_sim', 'Simulator.run', 'AttitudeEstimator.imu_callback', 'AttitudeEstimator.mag_callback', 'Publisher.publish', 'Logger.run']
 RULE = ("each case = one run of the packaged launch_sim (noise off, 30 simulated seconds, body rates up to 10 rad/s) with a random true "
         "attitude (angle 0..pi), gyro bias with every component |b| in [0.03,0.1] rad/s and random sign, estimator initialised from "
         "measurements or started at zero, inclination +-1 rad, declination +-0.4 rad, dt_sim in {1/800,1/400}, dt_imu in "
